@@ -157,7 +157,7 @@ def classify(diag, text, genmap, byte_of_char=None):
         return None, ""
 
     low = msg.lower()
-    if "postcondition not satisfied" in low:
+    if "postcondition not satisfied" in low or "post-condition of closure" in low:
         res["kind"] = "post"
         for s in diag.spans:
             if s.get("label") and "failed this postcondition" in s["label"]:
@@ -203,6 +203,8 @@ def classify(diag, text, genmap, byte_of_char=None):
         res["kind"] = "recommends"
     elif any(h in low for h in ("while loop: not all errors may have been reported", "not all errors may have been reported")):
         res["kind"] = "note"
+    elif "division by zero" in low or "shift" in low:
+        res["kind"] = "overflow"
     else:
         res["kind"] = "frontend"
     return res
